@@ -405,17 +405,31 @@ func Instrument(p *Program, name string) int {
 }
 
 // FreeNames returns the identifiers that the function's own code refers to (not descending into
-// nested function literals) and does not declare itself. Over-approximates: callers resolve the
-// names and ignore globals and builtins.
+// nested function literals) at a place where no declaration of the function itself is in scope: block
+// scopes and declaration order are followed, so that a name which a nested block re-declares still counts
+// where it is used outside that block or before the declaration (`x := x + 1`). Callers resolve the names
+// and ignore globals and builtins.
 func FreeNames(fl *FuncLit) []string {
-	declared := map[string]bool{}
+	scopes := []map[string]bool{{}}
 	used := map[string]bool{}
+	declare := func(n string) { scopes[len(scopes)-1][n] = true }
+	use := func(n string) {
+		for i := len(scopes) - 1; i >= 0; i-- {
+			if scopes[i][n] {
+				return
+			}
+		}
+		used[n] = true
+	}
+	push := func() { scopes = append(scopes, map[string]bool{}) }
+	pop := func() { scopes = scopes[:len(scopes)-1] }
 	for _, p := range fl.Params {
-		declared[p.Name] = true
+		declare(p.Name)
 	}
 	if fl.Name != "" {
-		declared[fl.Name] = true
+		declare(fl.Name)
 	}
+	push() // the body block
 	var ws func(s Stmt)
 	var we func(e Expr)
 	wl := func(l []Stmt) {
@@ -423,11 +437,16 @@ func FreeNames(fl *FuncLit) []string {
 			ws(s)
 		}
 	}
+	block := func(l []Stmt) {
+		push()
+		wl(l)
+		pop()
+	}
 	we = func(e Expr) {
 		switch x := e.(type) {
 		case nil:
 		case *Ident:
-			used[x.Name] = true
+			use(x.Name)
 		case *TemplateLit:
 			for _, p := range x.Parts {
 				if p.X != nil {
@@ -483,18 +502,18 @@ func FreeNames(fl *FuncLit) []string {
 			// nested literal: its free variables are resolved when IT is created
 		case *IfExpr:
 			we(x.Cond)
-			wl(x.Then)
+			block(x.Then)
 			if x.ElseIf != nil {
 				we(x.ElseIf)
 			}
-			wl(x.Else)
+			block(x.Else)
 		case *SwitchExpr:
 			we(x.Subject)
 			for _, c := range x.Cases {
 				for _, v := range c.Values {
 					we(v)
 				}
-				wl(c.Body)
+				block(c.Body)
 			}
 		case *Pipe:
 			for _, s := range x.Stages {
@@ -508,41 +527,43 @@ func FreeNames(fl *FuncLit) []string {
 			we(x.X)
 		case *VarDecl:
 			we(x.X)
-			declared[x.Name] = true
+			declare(x.Name)
 		case *MultiDecl:
 			we(x.X)
 			for _, n := range x.Names {
 				if x.Decl {
-					declared[n] = true
+					declare(n)
 				} else {
-					used[n] = true
+					use(n)
 				}
 			}
 		case *Assign:
 			we(x.Target)
 			we(x.X)
 		case *IncDec:
-			used[x.Name] = true
+			use(x.Name)
 		case *FuncDecl:
-			declared[x.F.Name] = true
+			declare(x.F.Name)
 		case *Return:
 			we(x.X)
 		case *For:
+			push() // loop scope: init variable, range variables
 			if x.Init != nil {
 				ws(x.Init)
 			}
 			we(x.Cond)
+			we(x.Iter)
+			if x.K != "" {
+				declare(x.K)
+			}
+			if x.V != "" {
+				declare(x.V)
+			}
+			block(x.Body)
 			if x.Post != nil {
 				ws(x.Post)
 			}
-			we(x.Iter)
-			if x.K != "" {
-				declared[x.K] = true
-			}
-			if x.V != "" {
-				declared[x.V] = true
-			}
-			wl(x.Body)
+			pop()
 		case *Defer:
 			we(x.Call)
 		}
@@ -550,9 +571,7 @@ func FreeNames(fl *FuncLit) []string {
 	wl(fl.Body)
 	var res []string
 	for n := range used {
-		if !declared[n] {
-			res = append(res, n)
-		}
+		res = append(res, n)
 	}
 	return res
 }
